@@ -28,7 +28,9 @@ RULE = ("k-centers only (function and estimator form): 2..12 distinct integer po
         "the first nearest frame of each supplied centre, each function-form case is run with both settings of the shortcut on "
         "the same arguments and the two results must be identical; the 2-approximation is not demanded there; a few of them on a line, built so that a frame lies between the supplied "
         "centre and the new centre where the bound of the shortcut decides. The shortcut on md.Trajectory data (frame centres) with "
-        "and without a buffer-reusing metric. "
+        "and without a buffer-reusing metric. Supplied non-frame centres on a small batch (2..5 frames) with a stopping rule asking for "
+        "more centres than the batch has frames (n+1..n+k0 centres, and / or a radius below every distance of the data): supplied "
+        "centres count, the run ends with more centres than frames, never earlier than the stop clause says. "
         "non-trivial := n >= 4 and >= 2 centres"
         " Input-class axes, each forced in every run for every entry point (cluster_common.gen_axis_streams): memory layout of the data (column subset / strided rows / Fortran / transposed / negative stride / strided columns / read-only; same values, the metric is evaluated on a fresh contiguous copy); container of the warm-start centres (2-D array or md.Trajectory slice, Python list of frames, the .centers list of an earlier result) with argument-unchanged checks on the list and the earlier result; a metric that returns its result in one reused float64 buffer; estimator-reuse histories (constructed with other parameters, optional earlier fit on the same or other data, parameters changed through set_params / attribute assignment, second fit) compared with the function form called with the current parameters; tiny length scales (x 2^-14..2^-20) incl. k-medoids started from labels+distances without centre indices. Every run of the real code is bounded by a watchdog (10 s; key does-not-terminate)."
         " Estimator attributes are read after every fit of a history (attributes / fit_predict / predict; warm start from est.centers_) and "
@@ -125,6 +127,16 @@ def generate(rng, tier):
                 c["nclu"] = min(n, len(c["init"]) + rng.randint(1, 3))
         if i % 2:
             c["buf"] = True
+        cases.append(c)
+    # supplied non-frame centres on a SMALL batch of data (2..5 frames): supplied centres + centres still needed exceed
+    # the number of frames (count, radius below every distance, both); function form with both settings of the shortcut,
+    # every sixth case through the estimator
+    for i in range(30 if tier == "quick" else 300):
+        c = cc.gen_nonframe_warm(rng, kind=["euclidean", "manhattan", "matrix", "traj", None][i % 5], small=True)
+        if i % 6 == 5:
+            c["ti"], c["form"] = False, "class"
+        elif c.get("form") == "class":
+            c["form"] = "func"
         cases.append(c)
     return cases
 
@@ -263,7 +275,7 @@ def tags(c, out):
     return t
 
 
-ESSENTIAL_TAGS = ["empty-initial-centre-witness", "init-estimator", "estimator-read-attrs-then-refit", "estimator-read-fit_predict-then-refit",
+ESSENTIAL_TAGS = ["non-frame-init-more-centres-requested-than-frames", "non-frame-init-ends-with-more-centres-than-frames", "empty-initial-centre-witness", "init-estimator", "estimator-read-attrs-then-refit", "estimator-read-fit_predict-then-refit",
                   "estimator-read-predict-then-refit", "non-frame-init-bound-decides", "ti-md-trajectory", "ti-md-trajectory-buffer-reusing-metric", "non-frame-init", "non-frame-init-ti", "non-frame-init-euclidean", "non-frame-init-manhattan", "non-frame-init-matrix",
                   "non-frame-init-md-trajectory", "init-array", "init-list", "init-result", "warm-init-md-trajectory", "non-contiguous-data", "buffer-reusing-metric",
                   "estimator-history", "estimator-refit-same", "estimator-refit-other",
